@@ -1790,6 +1790,13 @@ feature! {
         }
 
         fn register_callsite(&self, metadata: &'static Metadata<'static>) -> Interest {
+            // An empty `Vec` is not interested in anything itself, but --- like
+            // a `None` subscriber --- it must not disable the callsite for the
+            // other subscribers in the stack.
+            if self.is_empty() {
+                return Interest::always();
+            }
+
             // Return highest level of interest.
             let mut interest = Interest::never();
             for s in self {
@@ -1879,6 +1886,13 @@ feature! {
             // If downcasting to `Self`, return a pointer to `self`.
             if id == TypeId::of::<Self>() {
                 return Some(NonNull::from(self).cast());
+            }
+
+            // An empty `Vec` behaves like a `None` subscriber: its `OFF` max
+            // level hint must only apply when no other subscriber in the
+            // stack has an opinion.
+            if id == TypeId::of::<NoneLayerMarker>() && self.is_empty() {
+                return Some(NonNull::from(&NONE_LAYER_MARKER).cast());
             }
 
             // Someone is looking for per-subscriber filters. But, this `Vec`
